@@ -32,15 +32,26 @@ MANIFEST = {
             "2.0/MarkingDefinition (it is the known finding C02-v20-marking-definition-created-without-milliseconds) and both "
             "Bundle classes (a bundle may carry a 2.0 marking-definition). Three strict_sound_refuted_* theorems give, for the "
             "defective variants ($ anchors, uuid text, empty extensions), a strict in-scope request whose output is refused "
-            "for every validator fuel. CORRESPONDENCE / ORACLE ONLY (not proved): the uncovered classes, inputs outside "
-            "req_scope, interoperability mode, allow_custom mode, Python-only argument values, state kept between calls.",
+            "for every validator fuel. THREE RULES AUDITED LATER (2026-09-29): (a) created <= modified is a co-constraint of "
+            "the frozen tables (audited override), hence inside valid_obj and inside the theorems -- on a tree that does not "
+            "check it the refinement names constraint|<class>|0 for the 37 classes with both properties and the theorem's "
+            "instance is about the specification relaxed at exactly those places; (b) strict RFC 4648 base64 for binary "
+            "properties and (c) no null / empty list inside dictionary values are in valid_obj_x = valid_obj + leaf_extra, "
+            "which is what the ORACLE evaluates; the soundness theorems are about valid_obj and do NOT cover (b), (c). Proved "
+            "about them: audited_validator_strengthens (valid_obj_x implies valid_obj) and three more refutations "
+            "(strict_sound_refuted_binary_not_base64: lenient-decoder variant; _dictionary_null_value: pinned and repaired "
+            "variant alike; _modified_before_created: the regenerated tables minus the time-order rule). CORRESPONDENCE / "
+            "ORACLE ONLY (not proved): the uncovered classes, inputs outside req_scope, interoperability mode, allow_custom "
+            "mode, Python-only argument values, state kept between calls, rules (b) and (c).",
     "design_ref": "DESIGN.md 6/C02, Appendix A.7; design_notes/C02-C03.md",
     "note": "Trusted: Coq kernel + vm_compute; tr_tables translator (live classes of the tree under test; fail-closed); the "
             "frozen specification tables /verif/spec (audited: 2.1 confidence 0..100, 2.0 marking-definition created "
-            "millisecond-exact; the rest seeded) and Spec/StixValid.v; the stix2patterns validator as pattern oracle; the "
+            "millisecond-exact, created <= modified on the 37 classes with both common properties; the rest seeded) and "
+            "Spec/StixValid.v (valid_obj_x: also strict base64, dictionary values); the stix2patterns validator as pattern oracle; the "
             "C08 model for granular-marking selectors; the harness (generators, the output-repair classification of known "
-            "findings). The model-to-code tie is the correspondence run (exact output text and error class on ~1250 generated "
-            "calls per quick run, 19 run-time detected variant switches) plus the oracle: every strict success of the "
+            "findings). The model-to-code tie is the correspondence run (exact output text and error class on ~1450 generated "
+            "calls per quick run, 24 run-time detected variant switches; the inherited part of _check_object_constraints is "
+            "matched by source text) plus the oracle: every strict success of the "
             "implementation is serialized and judged by the kernel-evaluated validator.",
     "technique": "Coq proof over a hand-written interpreter model + tables generated from source; kernel-evaluated table "
                  "refinement naming the failing slot; correspondence + property oracle on the real implementation's output",
@@ -58,6 +69,9 @@ F_TOP = "C02-toplevel-extension-without-extensions-property"
 F_EXT0 = "C02-empty-extensions-dictionary"
 F_MD20 = "C02-v20-marking-definition-created-without-milliseconds"
 F_SOCK = "C02-socket-options-boolean-value"
+F_B64 = "C02-binary-not-strict-base64"
+F_DICTV = "C02-dictionary-value-null-or-empty-list"
+F_MODCR = "C02-modified-before-created"
 
 
 def _ident(**kw):
@@ -101,6 +115,57 @@ def witness_cases():
     add("selector-newline", "construct", "2.1/GranularMarking",
         {"selectors": ["name\n"], "marking_ref": "marking-definition--" + U})
     add("interop-id-newline", "parse", "2.1/Identity", _ident(id="identity--" + U + "\n"), interop=True)
+    # the three rules audited on 2026-09-29 (Spec/StixValid.v valid_obj_x; created <= modified in the frozen tables)
+    for v in ("aGVs bG8=", "aGVsbG8=!!garbage", "aGVsbG8=\n", "====", "aGVsbG8=aGVsbG8="):
+        add("binary-not-base64", "parse", "2.1/Artifact",
+            {"type": "artifact", "spec_version": "2.1", "id": "artifact--" + U, "payload_bin": v})
+    add("binary-not-base64-v20", "construct", "2.0/Artifact", {"type": "artifact", "payload_bin": "aGVs bG8="})
+    for v in (None, [], [None], {"abc": None}, [[]]):
+        add("dictionary-value-null-or-empty-list", "parse", "2.1/Process",
+            {"type": "process", "spec_version": "2.1", "id": "process--" + U, "pid": 1, "environment_variables": {"PATH": v}})
+    add("dictionary-value-null-v20", "construct", "2.0/Process", {"type": "process", "pid": 1, "environment_variables": {"PATH": None}})
+    add("modified-before-created", "parse", "2.1/Identity", _ident(created="2016-01-02T00:00:00.000Z", modified=T0))
+    add("modified-before-created", "parse", "2.0/Identity",
+        {"type": "identity", "id": "identity--" + U, "created": "2016-01-02T00:00:00.000Z", "modified": T0, "name": "n",
+         "identity_class": "individual"})
+    add("modified-before-created", "construct", "2.1/Relationship",
+        {"relationship_type": "uses", "source_ref": "identity--" + U, "target_ref": "identity--" + U,
+         "created": "2016-01-01T00:00:00.001Z", "modified": T0})
+    # already constructed objects given as property values (Python-only; judged by the oracle): a marking object of
+    # another kind than definition_type names, a registered extension object that was built with allow_custom
+    def py(label, cid, data):
+        w.append({"op": "construct", "cid": cid, "data": data, "allow": False, "interop": False, "py": True,
+                  "meta": {"origin": "witness", "ckind": label, "cid": cid}})
+
+    def obj(cid, allow=False, **kw):
+        return {"__py__": "stix", "cid": cid, "kwargs": kw, "allow": allow}
+    for ver in ("2.0", "2.1"):
+        py("py-marking-other-kind", ver + "/MarkingDefinition",
+           {"definition_type": "statement", "definition": obj(ver + "/TLPMarking", tlp="white")})
+        py("py-marking-other-kind", ver + "/MarkingDefinition",
+           {"definition_type": "tlp", "definition": obj(ver + "/StatementMarking", statement="s")})
+        py("py-marking-object", ver + "/MarkingDefinition",
+           {"definition_type": "statement", "definition": obj(ver + "/StatementMarking", statement="s")})
+        py("py-extension-object-custom", ver + "/File",
+           {"name": "a", "extensions": {"ntfs-ext": obj(ver + "/NTFSExt", True, sid="S-1-5", x_custom_inside=1)}})
+        py("py-extension-object-custom", ver + "/File",
+           {"name": "a", "extensions": {"windows-pebinary-ext": obj(ver + "/WindowsPEBinaryExt", True, pe_type="exe",
+                                                                     file_header_hashes={"FOO-HASH": "abcd"})}})
+        py("py-extension-object-custom", ver + "/NetworkTraffic",
+           {"protocols": ["tcp"], "src_ref": ("0" if ver == "2.0" else "ipv4-addr--" + U),
+            "extensions": {"http-request-ext": obj(ver + "/HTTPRequestExt", True, request_method="get", request_value="/",
+                                                   x_custom_inside=1)}})
+        py("py-extension-object", ver + "/File", {"name": "a", "extensions": {"ntfs-ext": obj(ver + "/NTFSExt", sid="S-1-5")}})
+        py("py-embedded-object-custom", ver + "/Identity" if ver == "2.1" else ver + "/Malware",
+           {"name": "n", **({"identity_class": "individual"} if False else {}),
+            **({"labels": ["trojan"]} if ver == "2.0" else {}),
+            "external_references": [obj(ver + "/ExternalReference", True, source_name="s", url="http://x", x_custom_inside=1)]})
+    for cid, slot in (("2.1/AutonomousSystem", "number"), ("2.1/File", "size"), ("2.1/Identity", "confidence"),
+                      ("2.0/AutonomousSystem", "number")):
+        base = {"2.1/AutonomousSystem": {"number": 1}, "2.0/AutonomousSystem": {"type": "autonomous-system", "number": 1},
+                "2.1/File": {"name": "a"}, "2.1/Identity": {"name": "n"}}[cid]
+        for b in (True, False):
+            add("bool-for-int", "construct", cid, dict(base, **{slot: b}))
     return w
 
 
@@ -229,8 +294,114 @@ def norm_md20(j, cid=None):
     return j
 
 
-NORMALISERS = [(F_MD20, norm_md20), (F_SOCK, norm_sock), (F_UUID, norm_uuid), (F_CONF, norm_conf), (F_NL, norm_nl), (F_MD6, norm_md6), (F_EXT0, norm_ext0),
+# ---- repairs that need to know which property has which kind: a walk of the emitted JSON along the FROZEN tables
+
+_SPEC = {}
+
+
+def _spec():
+    if not _SPEC:
+        _SPEC.update(tr_tables.load_spec(common.VERIF))
+    return _SPEC
+
+
+def _member_version(o, bundle_ver):
+    """Tables of a bundle member (Spec/StixValid.v, KStixObject)."""
+    sv = o.get("spec_version")
+    if isinstance(sv, str):
+        return "2.1" if sv == "2.1" else "2.0"
+    if "id" in o and o.get("type") in _spec()["registries"]["2.1"]["observables"]:
+        return "2.1"
+    return "2.0"
+
+
+def walk(cid, j, on_leaf=None, on_obj=None):
+    """Copy of the emitted object j of class cid with on_leaf(kind, value) applied to every value of a leaf kind
+    and on_obj(class, object) to every (nested) object, following the kinds of the frozen tables."""
+    sp = _spec()
+    c = sp["classes"].get(cid)
+    if c is None or not isinstance(j, dict):
+        return j
+    kinds = {s["name"]: s["kind"] for s in c["slots"]}
+    out = {k: (_walk_kind(kinds[k], v, on_leaf, on_obj) if k in kinds else v) for k, v in j.items()}
+    return on_obj(c, out) if on_obj else out
+
+
+def _walk_kind(kd, v, on_leaf, on_obj):
+    sp = _spec()
+    t = kd["k"]
+    if t == "embedded":
+        return walk(kd["cls"], v, on_leaf, on_obj)
+    if t == "listof":
+        return [walk(kd["cls"], e, on_leaf, on_obj) for e in v] if isinstance(v, list) else v
+    if t == "list":
+        return [_walk_kind(kd["of"], e, on_leaf, on_obj) for e in v] if isinstance(v, list) else v
+    if t == "extensions" and isinstance(v, dict):
+        reg = sp["registries"][kd["ver"]]["extensions"]
+        return {n: (walk(reg[n], e, on_leaf, on_obj) if n in reg else e) for n, e in v.items()}
+    if t == "observable" and isinstance(v, dict):
+        reg = sp["registries"][kd["ver"]]["observables"]
+        return {n: (walk(reg[e["type"]], e, on_leaf, on_obj) if isinstance(e, dict) and e.get("type") in reg else e)
+                for n, e in v.items()}
+    if t == "stixobject" and isinstance(v, dict):
+        reg = sp["registries"][_member_version(v, kd["ver"])]
+        mc = reg["objects"].get(v.get("type")) or reg["observables"].get(v.get("type"))
+        return walk(mc, v, on_leaf, on_obj) if mc else v
+    return on_leaf(kd, v) if on_leaf else v
+
+
+def _b64_strict(s):
+    return re.fullmatch(r"(?:[A-Za-z0-9+/]{4})*(?:[A-Za-z0-9+/]{2}==|[A-Za-z0-9+/]{3}=)?", s) is not None
+
+
+def norm_b64(j, cid=None):
+    """Only values of binary properties that are not RFC 4648 text: what the lenient decoder read, re-encoded."""
+    import base64
+
+    def leaf(kd, v):
+        if kd["k"] == "binary" and isinstance(v, str) and not _b64_strict(v):
+            try:
+                return base64.b64encode(base64.b64decode(v)).decode("ascii")
+            except Exception:  # noqa: BLE001
+                return v
+        return v
+    return walk(cid, j, on_leaf=leaf)
+
+
+def _fill(v):
+    if v is None:
+        return "x"
+    if isinstance(v, list):
+        return [_fill(e) for e in v] if v else ["x"]
+    if isinstance(v, dict):
+        return {k: _fill(e) for k, e in v.items()}
+    return v
+
+
+def norm_dictv(j, cid=None):
+    """Only inside the values of dictionary-typed properties: a null becomes a string, an empty list a one-element list."""
+    def leaf(kd, v):
+        return {k: _fill(e) for k, e in v.items()} if kd["k"] == "dict" and isinstance(v, dict) else v
+    return walk(cid, j, on_leaf=leaf)
+
+
+def norm_modcr(j, cid=None):
+    """Only objects with the common properties whose `modified` is earlier than `created`: modified := created."""
+    def obj(c, o):
+        if stixgen.versioned(c) and isinstance(o.get("created"), str) and isinstance(o.get("modified"), str):
+            a, b = stixgen.instant(o["created"]), stixgen.instant(o["modified"])
+            if a is not None and b is not None and b < a:
+                return dict(o, modified=o["created"])
+        return o
+    return walk(cid, j, on_obj=obj)
+
+
+# order matters when two repairs of one value both make it valid (a binary value ending in a line feed): the
+# kind-aware repairs come first
+NORMALISERS = [(F_B64, norm_b64), (F_DICTV, norm_dictv), (F_MODCR, norm_modcr),
+               (F_MD20, norm_md20), (F_SOCK, norm_sock), (F_UUID, norm_uuid), (F_CONF, norm_conf), (F_NL, norm_nl), (F_MD6, norm_md6), (F_EXT0, norm_ext0),
                (F_TOP, norm_top)]
+NEEDS_CID = (norm_top, norm_md20, norm_sock, norm_b64, norm_dictv, norm_modcr)
 
 
 def classify_invalid(items, pats):
@@ -240,13 +411,13 @@ def classify_invalid(items, pats):
     for n, (cid, j) in enumerate(items):
         alts = []
         for fid, f in NORMALISERS:
-            k = f(j, cid) if f in (norm_top, norm_md20, norm_sock) else f(j)
+            k = f(j, cid) if f in NEEDS_CID else f(j)
             if k != j:
                 alts.append(([fid], k))
         if len(alts) > 1:
             k = j
             for fid, f in NORMALISERS:
-                k = f(k, cid) if f in (norm_top, norm_md20, norm_sock) else f(k)
+                k = f(k, cid) if f in NEEDS_CID else f(k)
             alts.append(([a[0][0] for a in alts], k))
         for fids, k in alts:
             jobs.append((cid, k))
@@ -335,11 +506,24 @@ def boundary_cases(failures, live, g, rng, per_failure=12):
     """For every named failure of the refinement, inputs around the slot on otherwise valid objects."""
     spec = g.spec
     cases = []
+    # bases: generated objects of the class that the implementation ACCEPTS as they are (the generator is only
+    # "mostly valid"; a corruption of a base that is refused for another reason explains nothing)
+    cids = []
+    for f in failures:
+        if len(f) > 1 and f[1] in g.classes and f[1] not in cids:
+            cids.append(f[1])
+    cand = [(cid, g.obj(cid, 0, {"safe": True}, optional_p=p)) for cid in cids for p in (0.0, 0.4, 0.9, 0.0, 0.2, 0.6, 0.0, 0.3)]
+    lines, _ = sc.run_impl_cases([{"op": "construct", "cid": cid, "data": o, "allow": False, "interop": False, "meta": {}}
+                                  for cid, o in cand], want_json=False) if cand else ([], None)
+    accepted = {}
+    for (cid, o), l in zip(cand, lines):
+        if l.startswith("OK "):
+            accepted.setdefault(cid, []).append(o)
     for f in failures:
         kind, cid = f[0], f[1] if len(f) > 1 else None
         if cid not in g.classes:
             continue
-        bases = [g.obj(cid, 0, {"safe": True}, optional_p=p) for p in (0.0, 0.4, 0.9)]
+        bases = (accepted.get(cid, []) + [o for c2, o in cand if c2 == cid])[:3]
         label = "|".join(f)
         routes = ["parse", "construct"] if sc.is_toplevel(g, cid) else ["construct"]
 
@@ -356,9 +540,11 @@ def boundary_cases(failures, live, g, rng, per_failure=12):
                 except (ValueError, KeyError, IndexError):
                     pass
             for v in vals[:per_failure]:
-                x = dict(bases[len(cases) % len(bases)])
-                x[name] = v
-                emit(x)
+                # on every base: a base may be refused for another reason (a TLP marking with a changed `created`)
+                for b in bases:
+                    x = dict(b)
+                    x[name] = v
+                    emit(x)
         elif kind == "required":
             name = f[2]
             for b in bases:
@@ -366,8 +552,16 @@ def boundary_cases(failures, live, g, rng, per_failure=12):
                 x.pop(name, None)
                 emit(x)
         elif kind in ("constraint", "opaque", "header"):
+            # a constraint stated by an audited override (they come first in the class's list) fails on every class
+            # that has it when the tree lacks the rule: only the corruptions of that rule, on every base
+            n_extra = len(spec["classes"][cid].get("extra_constraints", []))
+            audited = kind == "constraint" and len(f) > 2 and f[2].isdigit() and int(f[2]) < n_extra
             for b in bases:
-                for _, _, x in stixgen.coconstraint_corruptions(g, cid, b):
+                for _, lab, x in stixgen.coconstraint_corruptions(g, cid, b):
+                    if audited and not lab.startswith("modified-"):
+                        continue
+                    if audited and lab in ("modified-equals-created", "modified-submillisecond-before-created") and b is not bases[0]:
+                        continue
                     emit(x)
     return cases
 
@@ -475,8 +669,8 @@ def check(run):
     run.coverage["trusted_base"] += [
         "translators/tr_tables.py + dump_tables.py (live classes of stix2.v20/v21 -> Gen/Tables.v; fail-closed)",
         "frozen specification tables /verif/spec/stix_tables.json (+ audited_overrides.json) -> Gen/SpecTables.v; "
-        "Spec/StixValid.v (identifier, timestamp, dictionary-key, hex, no-null/empty rules audited; vocabularies, "
-        "reference targets, co-constraints seeded from the pinned tree)",
+        "Spec/StixValid.v (identifier, timestamp, dictionary-key, hex, no-null/empty rules, strict base64, dictionary "
+        "values, created <= modified audited; vocabularies, reference targets, other co-constraints seeded from the pinned tree)",
         "stix2patterns validator as the pattern oracle; Model/Markings.v (C08) for granular-marking selector validation",
         "uuid4 / uuid5 / the constructor clock replaced by sentinels in the implementation worker",
     ]
